@@ -2,7 +2,7 @@
 //! `SamplingStrategy` / `QuorumSamplingStrategy` shipped in `rotor::sampling_strategy`.
 //!
 //! ops (see `lean/Driver/C17.lean`): `stakes …`, `fa1 k`, `fa1p k`, `part w bins order…`,
-//! `degenerate w bins`, `fa2 k`, `draw <strategy> … committee…`.
+//! `constructible w bins`, `fa2 k`, `draw <strategy> … committee…`.
 //! The implementation side of a `draw` line is the verdict of this file's *own* naive oracle on the
 //! committee the real sampler returned; the model side is `AgModel.Sampler`'s validity predicate on the
 //! same committee (the theorems of `Props/C17.lean` are about that predicate).
@@ -74,7 +74,8 @@ fn fa1_ref(st: &[u64], k: u64) -> (Vec<usize>, Vec<u64>, u64) {
     let kp = k - req.len() as u64;
     (req, w, kp)
 }
-/// D8 condition: the partition leaves a trailing bin empty
+/// the shape on which the pinned snapshot panicked (D8, fixed): bins of ceil(total/bins) leave a
+/// trailing bin empty.  Only used to show that the generators keep producing such shapes.
 fn trailing_bin_empty(w: &[u64], bins: u64) -> bool {
     if bins == 0 {
         return false;
@@ -231,6 +232,9 @@ fn fa1_case(cx: &mut Ctx, rng: &mut Rng, shape: &str, st: &[u64], k: u64, partit
         match (a, b) {
             (Ok(a), Ok(b)) => {
                 cx.rec.count("fa1p:constructed");
+                if trailing_bin_empty(&w_ref, kp_ref) {
+                    cx.rec.count("fa1p:constructed-on-former-D8-shape");
+                }
                 let kp = a.fallback_sampler.quorum_size();
                 // required prefix from a first draw
                 let first = catch(|| ids(&a.sample_quorum(&mut Rng(1)))).unwrap_or_default();
@@ -263,8 +267,7 @@ fn fa1_case(cx: &mut Ctx, rng: &mut Rng, shape: &str, st: &[u64], k: u64, partit
                 cx.rec.count("fa1p:ctor-panic");
                 cx.rec.step(&format!("fa1 {k}"), &format!("fa1 kprime {kp_ref} req {}", list(&req_ref)).trim_end().to_string());
                 cx.rec.step(&format!("fa1p {k}"), "panic");
-                let d8 = trailing_bin_empty(&w_ref, kp_ref);
-                cx.fail_class("fa1p-construct-panics", &format!("{}|{d8}", panic_site(&m)), || format!("{desc}: constructor panicked: {m}; empty-trailing-bin={d8} (fallback total {} over k'={kp_ref} bins)", w_ref.iter().map(|&x| x as u128).sum::<u128>()));
+                cx.fail_class("fa1p-construct-panics", &panic_site(&m), || format!("{desc}: constructor panicked: {m} (fallback total {} over k'={kp_ref} bins)", w_ref.iter().map(|&x| x as u128).sum::<u128>()));
                 cx.rec.end_case(fnv(cx.class, "panic"), false);
             }
         }
@@ -317,18 +320,19 @@ fn emit_bins(cx: &mut Ctx, w: &str, nbins: usize, bv: &[Vec<usize>], bs: &[Vec<u
     }
     let line = bv.iter().zip(bs).map(|(v, s)| v.iter().zip(s).map(|(a, b)| format!("{a}:{b}")).collect::<Vec<_>>().join(",")).collect::<Vec<_>>().join("|");
     cx.rec.step(&format!("part {w} {nbins} {}", list(&order)), &format!("ord true bins {line}"));
-    // independent recount: every validator's stake is fully distributed, bins are non-empty and
-    // equally heavy (all but the last exactly ceil(total/bins)), nobody spans more than two bins
-    // when no weight exceeds a bin
+    // independent recount (repaired algorithm, fix D8: weights are in units of 1/nbins stake):
+    // bins are non-empty, every bin weighs exactly the total stake, every validator's
+    // stake·nbins units are fully distributed, nobody spans more than two bins when no
+    // validator holds more than one bin
     let t: u128 = weights.iter().map(|&x| x as u128).sum();
-    let spb = if nbins == 0 { 0 } else { t.div_ceil(nbins as u128) };
+    let spb = t;
     let mut taken = vec![0u128; weights.len()];
     let mut span = vec![0usize; weights.len()];
     let mut ok = bv.len() == nbins && bs.len() == nbins;
-    for (j, (v, s)) in bv.iter().zip(bs).enumerate() {
+    for (v, s) in bv.iter().zip(bs) {
         ok &= !v.is_empty() && v.len() == s.len() && s.iter().all(|&x| x > 0);
         let sum: u128 = s.iter().map(|&x| x as u128).sum();
-        ok &= if j + 1 < nbins { sum == spb } else { sum <= spb && sum > 0 };
+        ok &= sum == spb;
         for (&a, &b) in v.iter().zip(s) {
             if a < weights.len() {
                 taken[a] += b as u128;
@@ -338,9 +342,9 @@ fn emit_bins(cx: &mut Ctx, w: &str, nbins: usize, bv: &[Vec<usize>], bs: &[Vec<u
             }
         }
     }
-    ok &= (0..weights.len()).all(|v| taken[v] == weights[v] as u128);
-    let two = weights.iter().any(|&x| x as u128 > spb) || span.iter().all(|&c| c <= 2);
-    cx.rec.oracle(ok, "partition-structure", || format!("{desc}: bins {bv:?} / {bs:?} do not partition the weights {} into {nbins} non-empty bins of {spb}", short(weights)));
+    ok &= (0..weights.len()).all(|v| taken[v] == weights[v] as u128 * nbins as u128);
+    let two = weights.iter().any(|&x| x as u128 * nbins as u128 > spb) || span.iter().all(|&c| c <= 2);
+    cx.rec.oracle(ok, "partition-structure", || format!("{desc}: bins {bv:?} / {bs:?} do not partition the weights {} (times {nbins}) into {nbins} non-empty bins of exactly {spb} units", short(weights)));
     cx.rec.oracle(two, "partition-more-than-two-bins", || format!("{desc}: a validator with at most one bin of stake spans more than two bins: {bv:?}"));
 }
 
@@ -356,7 +360,10 @@ fn partition_case(cx: &mut Ctx, rng: &mut Rng, shape: &str, st: &[u64], bins: us
     match (mk(), mk()) {
         (Ok(a), Ok(b)) => {
             cx.rec.count("part:constructed");
-            cx.rec.step(&format!("degenerate s {bins}"), "degenerate false");
+            if d8 {
+                cx.rec.count("part:constructed-on-former-D8-shape");
+            }
+            cx.rec.step(&format!("constructible s {bins}"), "constructible true");
             cx.rec.oracle(ids_eq(&a, &b), "partition-nondeterministic", || format!("{desc}: two constructions give different bins: {:?} vs {:?}", a.bin_validators, b.bin_validators));
             let bv: Vec<Vec<usize>> = a.bin_validators.iter().map(|b| ids(b)).collect();
             let bs: Vec<Vec<u64>> = a.bin_stakes.iter().map(|b| b.iter().map(|s| s.inner()).collect()).collect();
@@ -371,14 +378,14 @@ fn partition_case(cx: &mut Ctx, rng: &mut Rng, shape: &str, st: &[u64], bins: us
         }
         (Err(m), _) | (_, Err(m)) => {
             cx.rec.count("part:ctor-panic");
-            cx.rec.step(&format!("degenerate s {bins}"), "degenerate true");
+            cx.rec.step(&format!("constructible s {bins}"), "constructible false");
             let positive = st.iter().all(|&s| s > 0);
             if !positive {
                 cx.rec.count("part:ctor-panic-with-zero-stakes(outside the property)");
                 cx.rec.end_case(fnv(cx.class, "panic0"), false);
                 return;
             }
-            cx.fail_class("partition-construct-panics", &format!("{}|{d8}", panic_site(&m)), || format!("{desc}: constructor panicked: {m}; empty-trailing-bin={d8}"));
+            cx.fail_class("partition-construct-panics", &panic_site(&m), || format!("{desc}: constructor panicked: {m}"));
             cx.rec.end_case(fnv(cx.class, "panic"), false);
         }
     }
@@ -659,7 +666,7 @@ fn main() {
         decay_case(&mut cx, &mut rng, shape, &st, 65536, 1, 100_000);
     }
     cx.mute = false;
-    // the concrete inputs named in DESIGN.md §6/§7 (D8, D9, D18)
+    // the concrete inputs named in DESIGN.md §6/§7 (D8 — fixed, now positive cases —, D9, D18)
     partition_case(&mut cx, &mut rng, "equal1", &[1; 6], 4);
     fa1_case(&mut cx, &mut rng, "equal1", &[1; 100], 64, true);
     fa2_case(&mut cx, &mut rng, "equal1", &[1; 128], 64);
